@@ -646,7 +646,14 @@ func ruleSQLTAINT(c *Ctx, r *Report) {
 				v := "$1.(string)"
 				if mode.name == "inline" {
 					want := `'{strings.ReplaceAll(` + v + `,"'","''")}'`
-					if row.Str == want {
+					// the same doubling through a Replacer or a byte-wise copy: ' + rewrite['→''](v) + '
+					same := false
+					if len(row.Skel) == 3 && row.Skel[0].isLit() && row.Skel[0].Lit == "'" && row.Skel[2].isLit() && row.Skel[2].Lit == "'" && row.Skel[1].Val != nil {
+						if inner, ie, desc, ok := c.rewriteOfE(row.Skel[1].Val, row.P.Env); ok && desc == "rewrite['→'']" && c.key(inner, ie) == v {
+							same = true
+						}
+					}
+					if row.Str == want || same {
 						r.ok(rule, key, pos, want)
 					} else {
 						r.bad(rule, key, pos, "a string value must be rendered as a single-quoted constant with every ' doubled; the inline serialiser renders "+row.Str+" — a value containing a quote terminates the constant and the rest becomes SQL")
